@@ -17,7 +17,7 @@ import (
 // value to parser.FunctionBlock.
 func c03URLForms(c *core.Check) {
 	p := c.Prog
-	r := c.Rule("R12", "both token forms of <url>: every function of the module that tests a token for parser.URL (type switch or assertion) tests the same value for parser.FunctionBlock too — the quoted form url(\"…\") is a function block", 4)
+	r := c.Rule("R12", "both token forms of <url>: every function of the module that tests a token for parser.URL (type switch or assertion) tests the same value for parser.FunctionBlock too — the quoted form url(\"…\") is a function block", 2)
 	n := 0
 	for _, fn := range p.ModFuncs {
 		if fn.Pkg == nil || fn.Blocks == nil {
